@@ -42,6 +42,11 @@ func (sfc *StructFieldsCopy) Frag(ctx context.Context) iter.Seq[string] {
 		for i := 0; i < sfc.Struct.NumFields(); i++ {
 			f := sfc.Struct.Field(i)
 
+			if f.Name() == "_" {
+				// a blank field cannot be referred to
+				continue
+			}
+
 			if sfc.Skip != nil && sfc.Skip(f) {
 				continue
 			}
